@@ -16,7 +16,7 @@ model's own output where the event carries one), and applies the corresponding m
   cb s k              the Fetcher callback got a batch               => digest of the payloads the model delivered for it
   m b i p             the scanner invoked callback b on entry (i,p)  => ok     (`take`/`proc`)
   stop | cancel       Fetcher.Stop() / context cancellation          => ok
-  done                Run / ScanLog returned                         => `<entries delivered | callbacks made> <nil | end index>`
+  done [ret=n]        Run / ScanLog (returning n) returned            => `<entries delivered> nil` | `<callbacks made>`
 -/
 namespace CTV.Driver.C16
 open CTV CTV.Proto CTV.Model.Scan
@@ -251,14 +251,16 @@ def handleEvent (d : DS) (toks : List String) : DS × String :=
         | _, none => fail d s!"m {i}: no idle matcher"
         | some j, some m => ok { d with st := step env (step env d.st (.take m j)) (.proc m) }
     | _, _ => fail d "bad m line"
-  | "done" :: _ =>
+  | "done" :: rest =>
+    let ret : Option Nat := (kv rest "ret").bind String.toNat?
     if !d.inited then
       match d.bad with
       | some _ => (d, "skip")
       | none => (d, "0 err")
     else
-      let st := d.st
-      if !st.cancelled && !allIdle st.workers then fail d "returned while a fetch was pending"
+      -- after a cancellation the workers still holding a range have given it up (`abandon`, enabled only then)
+      let st := if d.st.cancelled then (List.range d.st.workers.length).foldl (fun st w => step env st (.abandon w)) d.st else d.st
+      if !allIdle st.workers then fail d "returned while a fetch was pending (and the context was not cancelled)"
       else if !d.awaiting.isEmpty then fail d "returned with a fetched batch never handed to the callback"
       else
         let st := if st.closed then some st else if closeEnabled st then some (step env st .close) else none
@@ -274,9 +276,17 @@ def handleEvent (d : DS) (toks : List String) : DS × String :=
           | .error m => fail d s!"done: {m}"
           | .ok st' =>
             if !allIdle st'.matchers then fail d "done: a selected entry is still waiting for its callback"
-            else match d.bad with
+            else
+              -- ScanLog returns the fetcher's end index: the model's end, or — in continuous mode once a stop / cancellation
+              -- is pending — a later STH the generator accepted after its last observable hand (it exits, or hands to a
+              -- worker that gives up, without any further request)
+              let retOk := match ret with
+                | none => false
+                | some r => r == st'.end_ || (st'.continuous && st'.stopReq && st'.end_ ≤ st'.cursor && r > st'.end_ && d.sths.contains r)
+              if !retOk then fail d s!"ScanLog returned {repr ret}, the fetcher's end index is {st'.end_} (STHs seen since: {d.sths})"
+              else match d.bad with
               | some _ => (d, "skip")
-              | none => ({ d with st := st' }, s!"{st'.called.length} {st'.end_}")
+              | none => ({ d with st := st' }, s!"{st'.called.length}")
   | _ => fail d "unknown event"
 
 def handle (d : DS) (line : String) : DS × String :=
